@@ -10,7 +10,7 @@
    tree  = prefix token stream: <n> then n entries; entry = b <0|1> <name> <oid> | l <name> <oid> |
            c <name> <oid> | t <name> <k> followed by k entries; names and ids are hex byte strings
    path  = hex of the slash-joined bytes; lists are space separated, - when empty
-   index = entries b:<0|1>:<path>:<oid> | l:<path>:<oid> | c:<path>:<oid>
+   index = entries b:<0|1>:<path>:<oid> | l:<path>:<oid> | c:<path>:<oid> | i:<path> (intent-to-add)
    canon = entries <path>=<path> (a path that is not listed does not resolve) *)
 open Git_ex
 let rec pos_of_int n = if n = 1 then XH else if n land 1 = 0 then XO (pos_of_int (n lsr 1)) else XI (pos_of_int (n lsr 1))
@@ -56,6 +56,7 @@ let parse_index (s : string) : index =
     | ["b"; x; p; oid] -> (path_of_hex p, IBlob (x = "1", str_of_hex oid))
     | ["l"; p; oid] -> (path_of_hex p, ILink (str_of_hex oid))
     | ["c"; p; oid] -> (path_of_hex p, ICommit (str_of_hex oid))
+    | ["i"; p] -> (path_of_hex p, IIntent)
     | _ -> failwith "index entry") (words s)
 let parse_canon (s : string) =
   let tbl = Hashtbl.create 64 in
